@@ -77,10 +77,11 @@ def values(depth=2):
     sub = st.deferred(lambda: values(depth - 1))
     return st.one_of(atoms, atoms,
                      st.lists(sub, min_size=1, max_size=4).map(lambda l: ('A', l)),
+                     st.lists(atoms, min_size=5, max_size=40).map(lambda l: ('A', l)),       # long arrays (index 10 and beyond)
                      st.dictionaries(map_keys, sub, min_size=1, max_size=4).map(lambda d: ('M', d)))
 
 
-PATHS = ['api', 'event', 'param', 'namelist', 'donedata']
+PATHS = ['api', 'event', 'param', 'namelist', 'donedata', 'invoke-param', 'invoke-namelist']
 
 
 def as_number(s):
@@ -171,7 +172,46 @@ def known(ctx, cls, example):
     return False
 
 
+def lua_lit(t):
+    """the generated tree as a Lua expression (strings with decimal escapes only, so no quoting question arises)"""
+    k = t[0]
+    if k == 'v':
+        return "'" + "".join(chr(b) if (48 <= b <= 57 or 65 <= b <= 90 or 97 <= b <= 122 or b == 32) else "\\%03d" % b for b in t[1].encode('utf-8')) + "'"
+    if k == 'i':
+        return t[1]
+    if k == 'A':
+        return "{" + ", ".join(lua_lit(x) for x in t[1]) + "}"
+    return "{" + ", ".join("[%s] = %s" % (lua_lit(('v', key)), lua_lit(v)) for key, v in t[1].items()) + "}"
+
+
+INVOKE_DOC = ('<scxml xmlns="http://www.w3.org/2005/07/scxml" version="1.0" datamodel="lua" name="p16"><datamodel><data id="v"/><data id="got"/></datamodel>'
+              '<state id="s0"><onentry><assign location="v" expr="%s"/></onentry><invoke type="scxml" id="c"%s>%s<content>'
+              '<scxml xmlns="http://www.w3.org/2005/07/scxml" version="1.0" datamodel="lua" name="c16c"><datamodel><data id="v" expr="\'default\'"/></datamodel>'
+              '<state id="c0"><onentry><send target="#_parent" event="back"><param name="p" expr="v"/></send></onentry></state></scxml>'
+              '</content></invoke><transition event="back" target="s1"><assign location="got" expr="_event.data.p"/></transition></state><state id="s1"/></scxml>')
+
+
+def check_invoke_value(ctx, t, path):
+    """the value travels parent -> (invoke param | namelist) -> child <data> -> #_parent send param -> parent"""
+    from xml.sax.saxutils import escape
+    lit = escape(lua_lit(t), {'"': '&quot;'})
+    doc = INVOKE_DOC % (lit, ' namelist="v"' if path == 'invoke-namelist' else '', '<param name="v" expr="v"/>' if path == 'invoke-param' else '')
+    r = call(ctx, "run", doc.encode('utf-8'), "large", "", "data vars=got idlewait=400 maxsteps=200")
+    if r.get("exception"):
+        raise Failure("setup-exception", {"exception": r["exception"], "signature": "setup"})
+    got = r.get("data", {}).get("got")
+    cls = classes(t) | {'path-' + path}
+    errs = [e[1] for e in r["trace"] if e[0] == 'ev' and str(e[1]).startswith('error')]
+    if errs or got is None or not equivalent(t, got):
+        raise Failure("value-changed", {"value": repr(t)[:400], "path": path, "observed": got, "errors": errs, "classes": sorted(cls),
+                                        "signature": ["value", path] + sorted(c for c in cls if not c.startswith('path-'))[:2]})
+    nontrivial = t[0] in ('A', 'M') or bool(cls & {'empty-string', 'number-like-string', 'keyword-like-string', 'string-with-quotes', 'big-integer', 'real'})
+    ctx.count(harness.h64(repr(t), path), nontrivial, cls, sample={"value": repr(t)[:200], "path": path, "read_back": got})
+
+
 def check_value(ctx, t, path):
+    if path.startswith('invoke-'):
+        return check_invoke_value(ctx, t, path)
     tw = wire(t).decode('latin-1')
     if path == 'api':
         ops = ["vv\x1f" + tw, "ev"]
@@ -203,9 +243,42 @@ def check_value(ctx, t, path):
 SYSVARS = ['_sessionid', '_name', '_event', '_ioprocessors', '_invokers']
 
 
+SYS_DOC = ('<scxml xmlns="http://www.w3.org/2005/07/scxml" version="1.0" datamodel="lua" name="sysdoc"%s><datamodel>%s</datamodel>'
+           '<state id="s0"><datamodel>%s</datamodel><onentry><log label="SV" expr="type(%s) .. \':\' .. tostring(%s)"/></onentry>'
+           '<transition event="error.execution" target="s1"/></state><state id="s1"><onentry><log label="ERR" expr="1"/></onentry></state></scxml>')
+
+
+def check_sysvar_data(ctx, var, val, late):
+    """a <data> element naming a system variable (early or late binding): error.execution, value unchanged"""
+    shown = var if var not in ('_ioprocessors', '_invokers', '_event') else "'-'"
+    decl = '<data id="%s" expr="%s"/>' % (var, val.replace('"', '&quot;'))
+    docs = [SYS_DOC % (' binding="late"' if late else '', '' if late else d, d if late else '', var, shown) for d in (decl, '')]
+    out = []
+    for doc in docs:
+        r = call(ctx, "run", doc, "large", "", "")
+        if r.get("exception"):
+            raise Failure("setup-exception", {"exception": r["exception"], "signature": "setup"})
+        out.append(([e[1] for e in r["trace"] if e[0] == 'log' and e[1].startswith('SV')], any(e[0] == 'ev' and e[1] == 'error.execution' for e in r["trace"])))
+    (sv_with, err_with), (sv_without, _) = out
+    if not err_with:
+        raise Failure("sysvar-assignable", {"variable": var, "how": "data", "late": late, "signature": ["sysvar", var, "data"]})
+    # _sessionid differs between two sessions: compare the type and, for _name, the value
+    a, b = (sv_with or ['?'])[0], (sv_without or ['?'])[0]
+    if var == '_sessionid':
+        a, b = a.split(':')[1 if ':' in a else 0].strip(), b.split(':')[1 if ':' in b else 0].strip()
+    if a != b:
+        raise Failure("sysvar-changed", {"variable": var, "how": "data", "late": late, "with_data_element": sv_with, "without": sv_without,
+                                         "signature": ["sysvar-changed", var, "data"]})
+    ctx.count(harness.h64("sysdata", var, val, str(late)), True, ['sysvar-data'], sample={"variable": var, "how": "<data>", "late": late})
+
+
 def check_sysvar(ctx, var, how, val):
     """assignment to a system variable: error.execution, value unchanged"""
     before_after = "e" + var
+    if how == 'data':
+        return check_sysvar_data(ctx, var, val, False)
+    if how == 'data-late':
+        return check_sysvar_data(ctx, var, val, True)
     if how == 'api':
         ops = ["rin\x1fav1:x", before_after, "a%s\x1f%s" % (var, val), before_after]
         r = call(ctx, "dm", DOC, *ops)["r"]
@@ -234,7 +307,7 @@ def shard_main(ctx):
         ctx.replay_corpus(sys.modules[__name__])
     ctx.run_hypothesis([values(2), st.sampled_from(PATHS)], lambda t, path: check_value(ctx, t, path), p["values"] // n + 1,
                        lambda t, path: {"value": repr(t), "path": path}, name="value")
-    ctx.run_hypothesis([st.sampled_from(SYSVARS), st.sampled_from(['api', 'chart']), st.sampled_from(["1", "'x'", "nil", "{}"])],
+    ctx.run_hypothesis([st.sampled_from(SYSVARS), st.sampled_from(['api', 'chart', 'data', 'data-late']), st.sampled_from(["1", "'x'", "nil", "{}"])],
                        lambda v, h, val: check_sysvar(ctx, v, h, val), p["sys"] // n + 1,
                        lambda v, h, val: {"sysvar": v, "how": h, "val": val}, name="sys")
 
